@@ -193,6 +193,12 @@ class MillerDomain:
                 self.err(term, "%s is not recognised as the twist Frobenius π or π²" % d)
                 return TOP
             return Pt(frob(a[0].form, e))
+        if role == "twist_frob_multi" and a and isinstance(a[0], Pt):
+            es = self.twist.get(d)
+            if not isinstance(es, tuple):
+                self.err(term, "%s is not recognised as a tuple of twist Frobenius images" % d)
+                return TOP
+            return Tup([Pt(pscale(frob(a[0].form, e), sg)) for e, sg in es])
         if role == "twist_frob_by" and a and isinstance(a[0], Pt):
             return Adt("core::option::Option", "Some", [Pt(frob(a[0].form, 1))])
         if n in ("unwrap", "expect") and a and isinstance(a[0], Adt) and a[0].variant == "Some":
